@@ -64,6 +64,12 @@ Proof. vm_compute. repeat split; reflexivity. Qed.
 Lemma ob_socks_port : socks5_default_port = b "1080".
 Proof. vm_compute. reflexivity. Qed.
 
+(* loopback names of the hosts file are recognised in any letter case: NewHTTPProxy lower-cases them when it
+   builds hp.localhost, isLocalhost lower-cases the name it is asked about *)
+Lemma ob_alias_case_insensitive :
+  aliases_lowercased_at_construction = true /\ localhost_lowercases_query = true.
+Proof. vm_compute. split; reflexivity. Qed.
+
 (* pac/pac.go: FindProxyForURL uses its receiver only to call the script, so its answer is a function of the
    query (the model's PAC oracle is a function of the request) *)
 Lemma ob_pac_resolver_stateless :
